@@ -23,3 +23,43 @@ Definition reader_survives (read_reader golive_reader : string) (assigns : list 
   && forallb (fun c => str_eqb (fst c) "s.goLive" && str_eqb (snd c) golive_reader) reader_calls
   && forallb (fun t => match t with (_, param, recv) => str_eqb param recv end) live_readers
   && negb (match live_readers with [] => true | _ => false end).
+
+(* ---------- the rest of the hand-over read is handed to the live loop ----------
+   The repaired source does it in three places, transcribed here statement by statement (source text, white
+   space collapsed); the flag ho_pass_rest of the model is true iff the generated facts are this text:
+     - the hand-over block calls <reader>.unreadAfter(<the message being handled>) and no other method of the reader;
+     - unreadAfter: pending, pendingErr := what the last ReadMessages call returned after that message, and its error;
+     - ReadMessages: returns pending / pendingErr first (and clears them), and records what it returns in last / lastErr. *)
+Fixpoint strs_eqb (a b : list string) : bool :=
+  match a, b with
+  | [], [] => true
+  | x :: a', y :: b' => str_eqb x y && strs_eqb a' b'
+  | _, _ => false
+  end.
+
+Definition expected_unread_after : string :=
+  "for i, m := range rd.last { if m == msg { rd.pending, rd.pendingErr = rd.last[i+1:], rd.lastErr break } }".
+Definition expected_readmessages_head : list string :=
+  ["var msgs []*Message";
+   "if len(rd.pending) > 0 || rd.pendingErr != nil { msgs, err := rd.pending, rd.pendingErr rd.pending, rd.pendingErr = nil, nil return msgs, err }"].
+Definition expected_readmessages_tail : list string :=
+  ["rd.last, rd.lastErr = msgs, err"; "return msgs, err"].
+
+Definition rest_kept (reader loop_var : string) (method_calls : list string) (methods : list (string * string))
+                     (head tail : list string) : bool :=
+  negb (str_eqb loop_var "")
+  && strs_eqb method_calls [append reader (append ".unreadAfter(" (append loop_var ")"))]
+  && match methods with
+     | [(name, body)] => str_eqb name "unreadAfter" && str_eqb body expected_unread_after
+     | _ => false
+     end
+  && strs_eqb head expected_readmessages_head
+  && strs_eqb tail expected_readmessages_tail.
+
+(* ---------- a live loop handles the messages of a read before it acts on the read's error ----------
+   liveSubscription's read loop: the messages, then the error of the call that returned them, then the next call *)
+Definition expected_live_subscription_loop : list string :=
+  ["for _, msg := range msgs {...}";
+   "if rerr != nil { if rerr == io.EOF { return nil } return rerr }";
+   "msgs, rerr = rd.ReadMessages()"].
+Definition live_err_after_msgs (loop : list string) : bool := strs_eqb loop expected_live_subscription_loop.
